@@ -78,7 +78,41 @@ def V(a, n, base):
     return bn_val(a[n], base)
 
 
+def _fdiv(inp, post, A, Bv, outs, what):
+    """floor division: q = floor(A / B), r = A - q B (Python's // is floor division on integers)"""
+    if Bv == 0:
+        return (True, '%s: division by zero reported' % what) if err(post) else (False, '%s: division by zero not reported' % what)
+    if err(post) and not inp.get('code'):
+        return None, 'the call reported an error'
+    q, r = A // Bv, A - (A // Bv) * Bv
+    for name, kind in outs:
+        exp = q if kind == 'q' else r
+        if name not in post:
+            continue
+        o = post[name]
+        if isinstance(o, dict):
+            bad = nf(o)
+            if bad:
+                return False, '%s: %s not normalised (%s): %s' % (what, name, bad, o)
+            got = bn_val(o, B(post))
+        else:
+            got = o
+        if got != exp:
+            return False, '%s(%d, %d): expected %s = %d (floor division), real code returned %d' % (what, A, Bv, 'quotient' if kind == 'q' else 'remainder', exp, got)
+    return True, '%s(%d, %d): real code returned the floor quotient/remainder (%d, %d)' % (what, A, Bv, q, r)
+
+
+def _outs(a, pairs):
+    # an output aliased with a later output argument is judged through the last writer only; NULL outputs are absent
+    return [(n, k) for n, k in pairs if n in a]
+
+
 ORACLES = {
+    'bn_div_rem': lambda a, i, p, b: _fdiv(i, p, V(a, 'a', b), V(a, 'b', b), [('c', 'q'), ('d', 'r')], 'bn_div_rem'),
+    'bn_div': lambda a, i, p, b: _fdiv(i, p, V(a, 'a', b), V(a, 'b', b), [('c', 'q')], 'bn_div'),
+    'bn_mod_basic': lambda a, i, p, b: _fdiv(i, p, V(a, 'a', b), V(a, 'm', b), [('c', 'r')], 'bn_mod_basic'),
+    'bn_div_dig': lambda a, i, p, b: _fdiv(i, p, V(a, 'a', b), a['b']['val'], [('c', 'q')], 'bn_div_dig'),
+    'bn_div_rem_dig': lambda a, i, p, b: _fdiv(i, p, V(a, 'a', b), a['b']['val'], [('c', 'q'), ('d', 'r')], 'bn_div_rem_dig'),
     'bn_add': lambda a, i, p, b: _bn_result(i, p, 'c', V(a, 'a', b) + V(a, 'b', b), 'bn_add'),
     'bn_sub': lambda a, i, p, b: _bn_result(i, p, 'c', V(a, 'a', b) - V(a, 'b', b), 'bn_sub'),
     'bn_add_dig': lambda a, i, p, b: _bn_result(i, p, 'c', V(a, 'a', b) + a['b']['val'], 'bn_add_dig'),
